@@ -27,7 +27,7 @@ HARD = st.sampled_from([None, None, 2, 5, 10, 20])
 def sim_cases():
     cfg = g.config(limits=True, putlocks=False, soft=SOFT, hard=HARD)
     ops = [
-        g.op_apply(limits=True, soft=SOFT, hard=HARD), g.op_apply(limits=True, soft=SOFT, hard=HARD), g.op_apply(limits=True, soft=SOFT, hard=HARD),
+        g.op_apply(limits=True, soft=SOFT, hard=HARD, cbscan=True), g.op_apply(limits=True, soft=SOFT, hard=HARD), g.op_apply(limits=True, soft=SOFT, hard=HARD),
         g.run, g.run, g.run, g.adv_lim, g.adv_lim, g.adv_lim, g.adv,
         g.scan, g.scan, g.scan, g.work, g.feed, g.scanrace, g.scanrace,
         g.worker_ops[0], g.worker_ops[2], g.worker_ops[4], g.tick, g.op_map(),
